@@ -502,12 +502,32 @@ def oracle_select(st, opt, arg, aux):
     return tgt
 
 
-def oracle(st0, opts, aux=None, reverse=False):
+# options whose documentation describes the OUTPUT ("force new calculated dlc", "defines no attribute exists for", "ECUs not
+# referenced", "zero length signals") - their place after the edits they speak about is part of that documentation
+STATE_OPTIONS = {"recalcDLC", "deleteObsoleteDefines", "deleteObsoleteEcus", "deleteZeroSignals"}
+SELECTION = {"ecus", "frames", "signals", "merge"}
+
+
+def swappable(opts):
+    """the two in-place options of a command line whose mutual order no documentation fixes, or None"""
+    inplace = [o for o in opts if o[0] not in SELECTION]
+    if len(inplace) != 2 or inplace[0][0] == inplace[1][0]:
+        return None
+    if any(o[0] in STATE_OPTIONS or o[0] == "compressFrame" for o in inplace):
+        return None
+    return tuple(sorted((inplace[0][0], inplace[1][0]), key=lambda k: KIND[k]))
+
+
+def oracle(st0, opts, aux=None, reverse=False, swap=None):
     """opts: list of (option, argument); composed in the pipeline order (reverse: in the opposite order - used only to measure
     how many generated pairs would give another result if the stages ran the other way round)"""
     st = copy.deepcopy(st0)
     st["_source"] = copy.deepcopy(st0)
-    for opt, arg in sorted(opts, key=lambda oa: KIND[oa[0]], reverse=reverse):
+    seq = sorted(opts, key=lambda oa: KIND[oa[0]], reverse=reverse)
+    if swap:
+        i, j = [n for n, oa in enumerate(seq) if oa[0] in swap]
+        seq[i], seq[j] = seq[j], seq[i]
+    for opt, arg in seq:
         if opt not in SWITCHES and arg == "" and opt in ("ecus", "frames", "signals", "deleteSignalAttributes",
                                                           "deleteFrameAttributes", "recalcDLC"):
             continue                                    # an empty argument counts as "not given"
@@ -1182,6 +1202,36 @@ def canon_labels(groups, known):
     return out
 
 
+def unstrip_uids(groups):
+    """answer groups of the model (no identities, group members as positions) -> matrix groups it reads"""
+    out, uid, sig_uids = [], 0, []
+    for g in groups:
+        if g[0] == 1:
+            uid += 1
+            sig_uids = []
+            out.append([1, uid] + g[1:])
+        elif g[0] in (2, 4):
+            uid += 1
+            if g[0] == 2:
+                sig_uids.append(uid)
+            out.append([g[0], uid] + g[1:])
+        elif g[0] == 5:
+            n = g[2]
+            out.append(g[:3 + n] + [sig_uids[x] if 0 <= x < len(sig_uids) else -1 for x in g[3 + n:]])
+        else:
+            out.append(g)
+    return out
+
+
+def reverse_model(rev):
+    """stage `second` alone, then stage `first` on its result, through the model"""
+    cl_second, cl_first, matrix = rev
+    a = core.parse_out(core.run_model([core.fmt_case(1807, cl_second + matrix)])[0])
+    if a == [[0]]:
+        return a
+    return core.parse_out(core.run_model([core.fmt_case(1807, cl_first + unstrip_uids(a[1:]))])[0])
+
+
 def cl_groups(opts):
     return [[10, KIND[k]] + codes("" if k in SWITCHES else v) for k, v in opts]
 
@@ -1364,6 +1414,8 @@ def _run(chk, rng, thorough, ok, C, R, tmp):
                     how="canmatrix.convert.convert(in.dbc, out.dbc, **options) and cli_convert.main([...], standalone_mode=False)",
                     merge_file=(open(inp["other_path"], "rb").read().decode("iso-8859-1") if any(o == "merge" for o, _ in opts) else None))
 
+    order_votes = {}
+
     def judge(inp, opts, style, plumb=None, out_name=None, load_opts=None, st=None, aux=None, level="full", path=None):
         """returns (failure description | None, nontrivial, results).  plumb/out_name/load_opts: see Runner.run; st / aux / path:
         another input description, merge file description, input file than inp's; level: 'full' | 'layout' comparison"""
@@ -1386,6 +1438,24 @@ def _run(chk, rng, thorough, ok, C, R, tmp):
             else:
                 fail = ("cli-vs-function", "the command line entry point and convert() disagree", "same result", what)
         nontrivial = False
+        sw = swappable(opts)
+        alt = None
+        if exp is not None and sw:
+            try:
+                alt = oracle(st, opts, aux, swap=sw)
+            except Silent:
+                alt = None
+        if exp is not None and alt is not None and all(res[h]["status"] == "ok" for h in res):
+            # two options whose mutual order is documented nowhere: the output must be the composition of the two documented
+            # effects in ONE order - which one is judged over the whole run (order_votes: the same for every input, entry point
+            # and order on the command line)
+            d_f = [bool(compare(exp, res[h]["nf"], level)) for h in ("fn", "cli")]
+            d_r = [bool(compare(alt, res[h]["nf"], level)) for h in ("fn", "cli")]
+            if any(d_f) != any(d_r) or (any(d_f) and any(d_r)):
+                vote = "neither" if (any(d_f) and any(d_r)) else ("pipeline" if not any(d_f) else "reverse")
+                order_votes.setdefault(sw, []).append((vote, [list(o) for o in opts], path or inp["path"]))
+                if vote == "reverse":
+                    exp = alt
         if exp is not None:
             nontrivial = bool(matgen.diff(view(finalize(st)), view(finalize({k: v for k, v in exp.items() if not k.startswith("_")}))))  \
                 if not exp.get("_selected") else True
@@ -1438,7 +1508,16 @@ def _run(chk, rng, thorough, ok, C, R, tmp):
             exp = [[0]]
         else:
             return
-        add_model(1807, groups, exp, dict(inf, known_group_names=sorted(known)), shard)
+        sw = swappable(opts)
+        extra = {}
+        if sw and len(opts) == 2:
+            # the model applies the two stages in convert()'s present order; no documentation fixes it: on a disagreement the
+            # two stages are run through the model one after the other in the opposite order (reverse_model)
+            first = [o for o in opts if o[0] == sw[0]][0]
+            second = [o for o in opts if o[0] == sw[1]][0]
+            extra = dict(_reverse=(cl_groups([second]), cl_groups([first]), matrix_groups(inp_db, intern)))
+            shard = False
+        add_model(1807, groups, exp, dict(inf, known_group_names=sorted(known), **extra), shard)
 
     # ---- single options ----
     sampled = 0
@@ -1566,6 +1645,20 @@ def _run(chk, rng, thorough, ok, C, R, tmp):
 
     # ---- an object addressed again AFTER an earlier stage edited it, on matrices of every provenance ----
     stale_section(chk, thorough, R, tmp, inputs, judge, replay_input)
+
+    # ---- one order per pair of options, the same everywhere ----
+    for sw, votes in sorted(order_votes.items()):
+        kinds = {v[0] for v in votes}
+        for k in kinds:
+            chk.count("pair-order-%s-%s-%s" % (sw[0], sw[1], k), sum(1 for v in votes if v[0] == k))
+        if "pipeline" in kinds and "reverse" in kinds:
+            a = [v for v in votes if v[0] == "pipeline"][0]
+            b = [v for v in votes if v[0] == "reverse"][0]
+            chk.violation("pair-order-not-fixed-%s-%s" % sw,
+                          "--%s and --%s are applied in one order for some inputs / entry points / command lines and in the other "
+                          "order for others" % sw, dict(one_order=dict(options=a[1], input=os.path.basename(a[2])),
+                                                        other_order=dict(options=b[1], input=os.path.basename(b[2]))),
+                          "one fixed order", "both orders occur")
 
     # ---- the command line knows every option convert() implements ----
     for opt in PIPELINE_ORDER:
@@ -1699,12 +1792,19 @@ def _run(chk, rng, thorough, ok, C, R, tmp):
     out = core.run_model(lines)
     bad_n = 0
     explained = 0
+    tie_reverse_order = 0
     known_keys = {k.get("key") for k in chk.known}
     for i, (l, e, o) in enumerate(zip(lines, expect, out)):
         got = core.parse_out(o)
         if "known_group_names" in info[i]:
             kn = set(info[i]["known_group_names"])
             got = ([got[0]] + canon_labels(got[1:], kn)) if l.startswith("70f ") else canon_labels(got, kn)
+        if got != e and "_reverse" in info[i]:
+            alt = reverse_model(info[i]["_reverse"])
+            alt = [alt[0]] + canon_labels(alt[1:], set(info[i].get("known_group_names", [])))
+            if alt == e:
+                tie_reverse_order += 1
+                continue
         if got != e:
             if "opt-changeFrameId-effect" in known_keys and l.startswith("70f "):
                 alt = core.parse_out(core.run_model(["710 " + l.split(" ", 1)[1]])[0])
@@ -1714,7 +1814,8 @@ def _run(chk, rng, thorough, ok, C, R, tmp):
             bad_n += 1
             chk.tie_break("convert-pipeline", info[i], short(got, 600), short(e, 600))
     chk.ties["correspondence"] = {"suite": "pipeline over the directly modelled options + PDU rewrite (cmd 1807/1809/1810) vs convert()",
-                                  "cases": len(lines), "disagreements": bad_n, "explained_by_known_finding": explained}
+                                  "cases": len(lines), "disagreements": bad_n, "explained_by_known_finding": explained,
+                                  "agree_in_the_other_undocumented_stage_order": tie_reverse_order}
     out = core.run_model(parse_lines)
     bad_n = 0
     for inf, e, o, l in zip(parse_info, parse_expect, out, parse_lines):
